@@ -321,7 +321,7 @@ func c01Cuts(rng *rand.Rand, variant string, b []byte, bounds []int) []int {
 
 func checkC01(r *verdict.Run) {
 	r.Rule = "sequences of well-formed commands (+ sentinel ECHO) are sent to a fresh emulator once command-by-command (reference) and again with the same bytes cut differently (pipeline, every byte, inside CRLF, inside length headers, around 8192, in writes of exactly 8192 bytes, random, mid-command; every other sequence is padded to a whole number of 8192-byte blocks); " +
-		"oracle: exactly one strictly parsed reply per command, same bytes as the reference (canonical tree for HGETALL/SMEMBERS), nothing after the sentinel; commands pipelined in several segments behind a blocking command (BLPOP/BRPOP/BLMOVE/BLMPOP, ended by a push or a timeout) must be answered like the command-by-command run; six connections reading their own 8 MiB values at the same time (one of them slowly) must each receive exactly their bytes; segments seconds apart, and connections still in use seconds after a command arrived in pieces, are served like a connection that only ever sent whole commands; arguments of 64 KiB to 5 MiB (around every power of two and 10^6) round-trip through SET/GET/ECHO/RPUSH whole and in segments; hostile byte strings must round-trip in every role; error replies must stay on one line. " +
+		"oracle: exactly one strictly parsed reply per command, same bytes as the reference (canonical tree for HGETALL/SMEMBERS), nothing after the sentinel; commands in front of a blocking command in the same segment are answered while it is still blocked; commands pipelined in several segments behind a blocking command (BLPOP/BRPOP/BLMOVE/BLMPOP, ended by a push or a timeout) must be answered like the command-by-command run; six connections reading their own 8 MiB values at the same time (one of them slowly) must each receive exactly their bytes; segments seconds apart, and connections still in use seconds after a command arrived in pieces, are served like a connection that only ever sent whole commands; arguments of 64 KiB to 5 MiB (around every power of two and 10^6) round-trip through SET/GET/ECHO/RPUSH whole and in segments; hostile byte strings must round-trip in every role; error replies must stay on one line. " +
 		"distinct = (variant, protocol, command, reply class) + (role, string class)"
 	slowDone := make(chan struct{})
 	go func() { defer close(slowDone); c01Slow(r, time.Duration(tierPick(r, 6500, 40000))*time.Millisecond) }()
@@ -461,6 +461,7 @@ func checkC01(r *verdict.Run) {
 		}
 	})
 	c01Large(r)
+	c01BeforeBlocking(r)
 	c01Blocked(r, pool, tierPick(r, 20, 300))
 	c01Cross(r, tierPick(r, 3, 12))
 	c01Binary(r, pool)
@@ -1108,4 +1109,73 @@ func c01Large(r *verdict.Run) {
 		cn.Do("DEL", key, key+"-l")
 		r.Distinct(fmt.Sprintf("large-argument/%d", n))
 	})
+}
+
+// c01BeforeBlocking: commands that arrive in the same segment IN FRONT of a blocking command are answered at once -
+// their replies must not wait for the block to end (however the replies are written, a command that was executed has
+// been answered when the next one starts to wait).
+func c01BeforeBlocking(r *verdict.Run) {
+	c, err := startChild(false)
+	if err != nil {
+		r.Inconclusive("cannot start child")
+		return
+	}
+	defer c.Stop()
+	e, err := startEmu(c, "")
+	if err != nil {
+		r.Inconclusive("infra: " + err.Error())
+		return
+	}
+	helper, err := e.dial()
+	if err != nil {
+		return
+	}
+	defer helper.Close()
+	blockers := [][]string{{"BLPOP", "bbq", "0"}, {"BRPOP", "bbq", "other", "0"}, {"BLMOVE", "bbq", "bbdst", "LEFT", "RIGHT", "0"}, {"BRPOPLPUSH", "bbq", "bbdst", "0"}, {"BLMPOP", "0", "1", "bbq", "LEFT"}, {"BLPOP", "bbq", "30"}}
+	for bi, blk := range blockers {
+		for _, nfront := range []int{1, 3, 40} {
+			cn, err := e.dial()
+			if err != nil {
+				return
+			}
+			helper.Do("DEL", "bbq", "bbdst", "bbn")
+			var b []byte
+			for i := 0; i < nfront; i++ {
+				b = append(b, resp.Cmd("INCR", "bbn")...)
+			}
+			b = append(b, resp.Cmd(blk...)...)
+			b = append(b, resp.Cmd("ECHO", "after")...)
+			cn.Send(b)
+			r.Eval(1)
+			name := fmt.Sprintf("%s/%d-in-front", strings.ToLower(blk[0]), nfront)
+			bad := false
+			for i := 1; i <= nfront; i++ {
+				v, _, err := cn.ReadValue(4 * time.Second)
+				if err != nil || v.Int != int64(i) {
+					r.Report("c01/before-blocking/reply-withheld", fmt.Sprintf("%d x INCR, %s and ECHO sent in one segment: reply %d of the commands in front of the blocking command did not arrive within 4 s while the block lasts (%v %s)", nfront, cmdString(blk), i, err, v), map[string]any{"blocker": blk, "in_front": nfront})
+					bad = true
+					break
+				}
+			}
+			if !bad {
+				// nothing more may arrive until somebody pushes
+				if extra := cn.Quiet(150 * time.Millisecond); len(extra) > 0 {
+					r.Report("c01/before-blocking/blocking-command-answered-early", fmt.Sprintf("%s on an empty list was answered without a push: %q", cmdString(blk), truncBytes(extra, 80)), nil)
+					bad = true
+				}
+			}
+			if !bad {
+				helper.Do("RPUSH", "bbq", "el")
+				if v, _, err := cn.ReadValue(4 * time.Second); err != nil || !strings.Contains(v.String(), "el") {
+					r.Report("c01/before-blocking/not-served", fmt.Sprintf("%s was not served by the push (%v %s)", cmdString(blk), err, v), nil)
+				} else if v, _, err := cn.ReadValue(4 * time.Second); err != nil || v.Text() != "after" {
+					r.Report("c01/before-blocking/command-behind-lost", fmt.Sprintf("the ECHO behind %s was not answered (%v %s)", cmdString(blk), err, v), nil)
+				} else {
+					r.Distinct("before-blocking/" + name)
+				}
+			}
+			cn.Close()
+			_ = bi
+		}
+	}
 }
